@@ -30,8 +30,22 @@ fn one() -> Cell {
     Cell::Number(Number::Fixnum(1))
 }
 
+fn two() -> Cell {
+    Cell::Number(Number::Fixnum(2))
+}
+
 fn list(items: Vec<Cell>) -> Cell {
     Cell::new_list(items)
+}
+
+/// Element `i` of the `cdr-of-pairs` family: a freshly built aggregate, `(1 . 2)` for even `i`,
+/// `#(1 2)` for odd `i` (never the same object in two copies of the list).
+fn pairs_elem(i: usize) -> Cell {
+    if i % 2 == 0 {
+        Cell::Pair(Box::new(one()), Box::new(two()))
+    } else {
+        Cell::Vector(vec![one(), two()])
+    }
 }
 
 /// The nested datum / expression of direction `dir` and depth `n`, built without recursion.
@@ -46,6 +60,22 @@ fn nest_cell(dir: &str, n: usize) -> Cell {
         }
         "cdr" | "dot" => {
             let mut x = Cell::Nil;
+            for _ in 0..n {
+                x = Cell::Pair(Box::new(one()), Box::new(x));
+            }
+            x
+        }
+        // a flat list of n shallow aggregates: element i (counted from the end) is pairs_elem(i)
+        "cdr-of-pairs" => {
+            let mut x = Cell::Nil;
+            for i in 0..n {
+                x = Cell::Pair(Box::new(pairs_elem(i)), Box::new(x));
+            }
+            x
+        }
+        // a flat list of n ones whose last cdr is 2 instead of (): `(1 1 … 1 . 2)`
+        "cdr-dotted" => {
+            let mut x = two();
             for _ in 0..n {
                 x = Cell::Pair(Box::new(one()), Box::new(x));
             }
@@ -97,6 +127,22 @@ fn nest_text(dir: &str, n: usize) -> String {
         "car" => format!("{}(){}", rep("("), rep(")")),
         "cdr" => format!("({})", rep("1 ")),
         "dot" => format!("{}(){}", rep("(1 . "), rep(")")),
+        "cdr-of-pairs" => {
+            let mut s = String::with_capacity(8 * n + 2);
+            s.push('(');
+            for i in (0..n).rev() {
+                s.push_str(if i % 2 == 0 { "(1 . 2) " } else { "#(1 2) " });
+            }
+            s.push(')');
+            s
+        }
+        "cdr-dotted" => {
+            if n == 0 {
+                "2".to_string()
+            } else {
+                format!("({}. 2)", rep("1 "))
+            }
+        }
         "vec" => format!("{}#(){}", rep("#("), rep(")")),
         "quote" => format!("{}x", rep("'")),
         "expr-app" => format!("{}0{}", rep("(+ 1 "), rep(")")),
@@ -112,6 +158,8 @@ fn mk_program(dir: &str) -> String {
     let (init, step) = match dir {
         "car" => ("'()", "(cons acc '())"),
         "cdr" => ("'()", "(cons 1 acc)"),
+        "cdr-of-pairs" => ("'()", "(cons (if (even? i) (cons 1 2) (vector 1 2)) acc)"),
+        "cdr-dotted" => ("2", "(cons 1 acc)"),
         "vec" => ("(vector)", "(vector acc)"),
         "quote" => ("'x", "(cons 'quote (cons acc '()))"),
         "closure" => ("0", "(lambda () acc)"),
@@ -128,7 +176,9 @@ fn mk_program(dir: &str) -> String {
 fn walk_program(dir: &str) -> Option<&'static str> {
     match dir {
         "car" => Some("(let loop ((x x) (i 0)) (if (pair? x) (loop (car x) (+ i 1)) i))"),
-        "cdr" => Some("(let loop ((x x) (i 0)) (if (pair? x) (loop (cdr x) (+ i 1)) i))"),
+        "cdr" | "cdr-of-pairs" | "cdr-dotted" => {
+            Some("(let loop ((x x) (i 0)) (if (pair? x) (loop (cdr x) (+ i 1)) i))")
+        }
         "vec" => Some(
             "(let loop ((x x) (i 0)) (if (= (vector-length x) 0) i (loop (vector-ref x 0) (+ i 1))))",
         ),
@@ -138,7 +188,7 @@ fn walk_program(dir: &str) -> Option<&'static str> {
     }
 }
 
-const DATA_DIRS: [&str; 4] = ["car", "cdr", "vec", "quote"];
+const DATA_DIRS: [&str; 6] = ["car", "cdr", "vec", "quote", "cdr-of-pairs", "cdr-dotted"];
 const DATA_OPS: [&str; 7] = ["read", "quote", "build", "gc", "equal", "write", "drop"];
 const CHAIN_DIRS: [&str; 2] = ["closure", "cont"];
 const CHAIN_OPS: [&str; 5] = ["build", "gc", "equal", "write", "drop"];
